@@ -19,7 +19,11 @@ type connHooks struct {
 	WantEE   bool
 	ClientEE []byte
 	GotEE    bool
-	mu       sync.Mutex
+	// CookieHRR: the server first sends a HelloRetryRequest carrying only this cookie;
+	// AcceptCookie: it tolerates a cookie (added to its HRR by Out) in the second ClientHello.
+	CookieHRR    []byte
+	AcceptCookie bool
+	mu           sync.Mutex
 	// standing flight modifications used by C33/C34
 	addHRRCookie []byte
 	compressCert bool
@@ -97,6 +101,16 @@ func init() {
 	tls.VerifHooks.ClientEncryptedExtensions13 = func(c *tls.Conn) bool {
 		h := hooksFor(c)
 		return h != nil && h.WantEE
+	}
+	tls.VerifHooks.ServerCookieHRR13 = func(c *tls.Conn) []byte {
+		if h := hooksFor(c); h != nil {
+			return h.CookieHRR
+		}
+		return nil
+	}
+	tls.VerifHooks.AcceptCookie13 = func(c *tls.Conn) bool {
+		h := hooksFor(c)
+		return h != nil && h.AcceptCookie
 	}
 	tls.VerifHooks.GotClientEncryptedExtensions13 = func(c *tls.Conn, raw []byte) {
 		if h := hooksFor(c); h != nil {
